@@ -88,6 +88,8 @@ def o_replay_transparent(ex, V):
                 continue
             p = (tuple(ev[1]), ev[2] == {"ok": "cb"} or str(ev[2].get("ok", "")).startswith("cb?"))
             if p in first:
+                if "err" in first[p][1] and first[p][1]["err"]["cls"] == "StepInterruptedError":
+                    continue  # invocation-level error: the property's proviso (user code lets it propagate)
                 if first[p][1] != ev[2]:
                     V("C02.observation_changed_on_replay", {"pos": ev[1], "first": {"inv": first[p][0], "outcome": first[p][1]},
                                                           "later": {"inv": k, "outcome": ev[2]}})
@@ -97,33 +99,17 @@ def o_replay_transparent(ex, V):
 
 @oracle("C03")
 def o_write_ahead(ex, V):
-    """An outcome is delivered only when the backend holds the terminal record; PENDING only after the
-    parking record was accepted."""
+    """An outcome is delivered only when the backend holds the terminal record (status read from the backend at
+    the instant of delivery); PENDING only when a parking record is held; success only with every observed
+    outcome recorded."""
     for k, inv in enumerate(ex["invs"]):
-        tbl = {tuple(r["pos"]): r for r in inv["start_tbl"]}
-        # replay the invocation's accepted updates in order: an `upd` with sync=True is accepted before the call returns
-        synced = dict(tbl)
-        for ev in inv["trace"]:
-            if ev[0] == "upd" and ev[1]["pos"] is not None:
-                u = ev[1]
-                if u["sync"] and u["action"] in ("SUCCEED", "FAIL"):
-                    synced[tuple(u["pos"])] = {"status": "SUCCEEDED" if u["action"] == "SUCCEED" else "FAILED"}
-            elif ev[0] == "deliver" and ev[2] != {"ok": "cb"}:
-                p = tuple(ev[1])
-                r = synced.get(p)
-                if r is None or r["status"] not in TERMINAL:
-                    V("C03.delivered_without_terminal_record", {"inv": k, "pos": ev[1], "outcome": ev[2]})
-        if inv["end"]["end"] == "suspended":
-            # something must be parked in the backend: a timer or an awaited external event
-            if not inv["enabled_after"]:
-                V("C03.pending_without_parking_record", {"inv": k, "table": inv["tbl"]})
-        if inv["end"]["end"] == "returned":
-            final = {tuple(r["pos"]): r for r in inv["tbl"]}
-            for ev in inv["trace"]:
-                if ev[0] == "deliver" and ev[2] != {"ok": "cb"}:
-                    r = final.get(tuple(ev[1]))
-                    if r is not None and r["status"] not in TERMINAL:
-                        V("C03.success_with_unrecorded_outcome", {"inv": k, "pos": ev[1]})
+        for ev in inv["raw_trace"]:
+            if ev[0] == "deliver" and ev[2] != {"ok": "cb"} and not str(ev[2].get("ok", "")).startswith("cb?"):
+                st = ev[3] if len(ev) > 3 else None
+                if st not in TERMINAL:
+                    V("C03.delivered_without_terminal_record", {"inv": k, "pos": ev[1], "outcome": ev[2], "backend_status": st})
+        if inv["end"]["end"] == "suspended" and not inv["enabled_after"]:
+            V("C03.pending_without_parking_record", {"inv": k, "table": inv["tbl"]})
 
 
 @oracle("C04")
@@ -232,9 +218,26 @@ def o_wfc_state(ex, V):
                     V("C13.continue_delay_below_one", {"update": ev[1]})
 
 
+def last_call(inv):
+    calls = [ev for ev in inv["raw_trace"] if ev[0] in ("call", "deliver")]
+    return calls[-1] if calls and calls[-1][0] == "call" else None
+
+
+@oracle("C01")
+def o_completed_yields(ex, V):
+    """A call at a position whose record is already terminal yields the recorded outcome - it does not suspend."""
+    for k, inv in enumerate(ex["invs"]):
+        lc = last_call(inv)
+        if inv["end"]["end"] == "suspended" and lc is not None and lc[3] in TERMINAL and lc[1] != "cbres":
+            V("C01.suspended_on_completed_operation", {"inv": k, "op": lc[1], "pos": lc[2], "status": lc[3]})
+
+
 @oracle("C14")
 def o_callbacks(ex, V):
     for k, inv in enumerate(ex["invs"]):
+        lc = last_call(inv)
+        if inv["end"]["end"] == "suspended" and lc is not None and lc[1] in ("cbres", "invoke") and lc[3] in TERMINAL:
+            V("C14.suspends_on_completed_callback_or_invoke", {"inv": k, "op": lc[1], "pos": lc[2], "status": lc[3]})
         for ev in inv["trace"]:
             if ev[0] == "deliver" and isinstance(ev[2].get("ok"), str) and ev[2]["ok"].startswith("cb?"):
                 V("C14.callback_id_changed", {"inv": k, "pos": ev[1], "got": ev[2]["ok"]})
@@ -258,7 +261,7 @@ def o_logger(ex, V):
                 V("C17.missing_execution_arn", {"inv": k, "msg": m, "extra": extra})
 
 
-ALL_ORACLES = [o_no_reentry, o_replay_transparent, o_write_ahead, o_amo, o_suspension, o_valid_history, o_step_retries,
+ALL_ORACLES = [o_completed_yields, o_no_reentry, o_replay_transparent, o_write_ahead, o_amo, o_suspension, o_valid_history, o_step_retries,
                o_wfc_state, o_callbacks, o_logger]
 
 
@@ -314,11 +317,11 @@ def one(ctx, script, seed, prop, component="engine", crash_p=0.25, fault_p=0.1, 
     return ex
 
 
-def run(ctx, prop, n_quick=120, n_thorough=2500, crash_p=0.25, fault_p=0.1, corpus=()):
+def run(ctx, prop, n_quick=500, n_thorough=10000, crash_p=0.25, fault_p=0.1, corpus=()):
     for script, seed in corpus:
         one(ctx, script, seed, prop, component="engine.corpus", crash_p=crash_p, fault_p=fault_p)
     for i in range(ctx.scale(n_quick, n_thorough)):
-        script = E.gen_script(ctx.rng)
+        script = E.gen_script(ctx.rng, focus=prop if i % 2 else None)
         one(ctx, script, ctx.rng.randrange(1 << 30), prop, crash_p=crash_p, fault_p=fault_p)
 
 
@@ -326,7 +329,7 @@ def search(ctx, prop, n=600):
     saved, ctx.driver = ctx.driver, None
     try:
         for i in range(n):
-            script = E.gen_script(ctx.rng)
+            script = E.gen_script(ctx.rng, focus=prop if i % 2 else None)
             one(ctx, script, ctx.rng.randrange(1 << 30), prop, component="engine.search")
             if ctx.violations:
                 break
@@ -338,3 +341,49 @@ def replay(ctx, rec, prop):
     case = rec["case"]
     one(ctx, case["script"], case.get("seed", 0), prop, component="engine.replay", plans=case.get("plans"),
         events=case.get("events"), limits=case.get("limits"))
+
+
+# ------------------------------------------------------------------------------------ per-property parameters
+PARAMS = {
+    "C04": {"crash_p": 0.45, "fault_p": 0.05},
+    "C03": {"crash_p": 0.2, "fault_p": 0.25},
+    "C07": {"crash_p": 0.1, "fault_p": 0.0},
+}
+
+RULES = {
+    "C01": "non-trivial = >= 2 invocations in which >= 1 terminal operation is replayed",
+    "C02": "non-trivial = >= 2 invocations in which >= 1 terminal operation is replayed",
+    "C03": "non-trivial = >= 2 invocations with a replayed operation (every run has synchronous checkpoints racing with the consumer thread under a seeded schedule)",
+    "C04": "non-trivial = executions with >= 2 invocations and a replayed operation; at-most-once steps with retries and in-body crashes are over-sampled",
+    "C07": "non-trivial = executions with >= 2 invocations (>= 1 PENDING) and a replayed operation",
+    "C11": "non-trivial = >= 2 invocations in which >= 1 terminal operation is replayed",
+    "C12": "non-trivial = >= 2 invocations in which >= 1 terminal operation is replayed",
+    "C13": "non-trivial = >= 2 invocations in which >= 1 terminal operation is replayed",
+    "C14": "non-trivial = >= 2 invocations in which >= 1 terminal operation is replayed",
+    "C16": "non-trivial = >= 2 invocations in which >= 1 terminal operation is replayed",
+    "C17": "non-trivial = >= 2 invocations in which >= 1 terminal operation is replayed",
+}
+
+
+def meta(prop):
+    return {
+        "rule": "seeded random Script workflows (<= 12 operations: step/wait/callback/invoke/wait_for_condition/child context/log, "
+                "nesting <= 2, outcome tables per attempt, try/except per call) x per-invocation plans (crash at tick k, checkpoint "
+                "fault at sync call k of 3 kinds, immediate completions, page size) x backend event orders, run to completion on the "
+                "real SDK under the deterministic scheduler; " + RULES.get(prop, "") + "; distinct by (script, plans, events)",
+        "trusted_base": [
+            "T3 backend contract B1-B7 (harness/backend.py mirrors Engine.Backend; the real service is not available)",
+            "T4 threading primitives as implemented by the simulator; T7 user code is deterministic (outcome tables)",
+            "harness/engine_sim.py: Script interpreter and event capture (create_checkpoint wrapper, user-function hooks)",
+            "payloads are identified with values (C15) in the model; the harness maps serialized payloads back to tokens",
+        ],
+        "assumptions": ["sequential programs (map/parallel are covered by the executor component)",
+                        "values come from a pool inside the serializer's exact round-trip domain"],
+    }
+
+
+def extra(ctx, prop):
+    """Property-specific additional components."""
+    if prop == "C12":
+        from harness import comp_strategy
+        comp_strategy.run(ctx)
